@@ -52,6 +52,7 @@ def run_shard(ctx):
     qmgen.drive_histories(ctx, OWN, qmgen.enqueue_vs_load_history(), ctx.n(400, 8000), nontrivial, salt=14)
     qmgen.drive_histories(ctx, OWN, qmgen.own_write_announced_history(), ctx.n(400, 8000), nontrivial, salt=16)
     qmgen.drive_histories(ctx, OWN, qmgen.exhausted_dup_history(), ctx.n(200, 400), nontrivial, salt=18)
+    qmgen.drive_histories(ctx, OWN, qmgen.sched_hold_history(), ctx.n(300, 6000), nontrivial, salt=19)
 
 
 def replay(case):
